@@ -242,6 +242,9 @@ Repl(s, c, ts) ==
              /\ ruv' = [ruv EXCEPT ![c] = @ \cup {x \in ruv[s] : InWin(x)} \cup (IF stamp THEN {<<ts, c>>} ELSE {})]
              /\ arms' = {Arm(Msg(u), ent[c][u]) : u \in touched} \cup (IF clash # {} THEN {"unique-clash"} ELSE {})
                         \cup (IF newcf # {} THEN {"conflict-copy-created"} ELSE {})
+                        \* the survivor of a uuid add-conflict is itself a party to a unique-value clash
+                        \cup (IF \E u \in touched \cap clash : Arm(Msg(u), ent[c][u]) \in {"addconflict-replace", "addconflict-keep"}
+                             THEN {"addconflict-survivor-in-unique-clash"} ELSE {})
              /\ nrepl' = nrepl + 1
              /\ UNCHANGED <<nwrites, purged>>
              /\ Log([op |-> "repl", from |-> s, to |-> c, t |-> ts, expect |-> "ok"])
